@@ -85,11 +85,7 @@ pub fn install_panic_hook() {
         };
         let bt = std::backtrace::Backtrace::force_capture().to_string();
         let function = enclosing_function(&bt);
-        // keep paths stable whatever the checkout location
-        let file = match file.find("src/") {
-            Some(i) if file.contains("/repo/") || file.starts_with("src/") => file[i..].to_string(),
-            _ => file,
-        };
+        let file = stable_path(&file);
         LAST_PANIC.with(|p| {
             *p.borrow_mut() = Some(PanicRecord {
                 message,
@@ -99,6 +95,26 @@ pub fn install_panic_hook() {
             })
         });
     }));
+}
+
+/// keep source paths stable whatever the checkout location, cargo home or toolchain build
+pub fn stable_path(file: &str) -> String {
+    if let Some(i) = file.find("/registry/src/") {
+        // <cargo home>/registry/src/<index>/<crate-version>/src/x.rs -> <crate-version>/src/x.rs
+        let rest = &file[i + "/registry/src/".len()..];
+        return match rest.find('/') {
+            Some(j) => rest[j + 1..].to_string(),
+            None => rest.to_string(),
+        };
+    }
+    if file.starts_with("/rustc/") {
+        // /rustc/<commit>/library/... -> library/...
+        return file.splitn(4, '/').nth(3).unwrap_or(file).to_string();
+    }
+    match file.find("src/") {
+        Some(i) if file.contains("/repo/") || file.starts_with("src/") => file[i..].to_string(),
+        _ => file.to_string(),
+    }
 }
 
 fn enclosing_function(bt: &str) -> String {
